@@ -4,7 +4,9 @@
 //! src/keywords.rs) with syn and extracts every struct/enum that derives `Visit`, `VisitMut` or
 //! `Serialize` (through `cfg_attr`): name, generics, the type-level `visit(with = "...")` hook, and per
 //! variant/field the name or index, the type expression, the field-level hook and every `serde(...)`
-//! attribute.  `cfg(...)` on items/variants/fields is evaluated for the feature set the harness builds
+//! attribute.  A field-level `with` hook on a field whose type is written `Vec<..>` (the derive's own syntactic
+//! test, `is_vec` in derive/src/lib.rs) fires around each element, in order, instead of around the field:
+//! such a field is marked `hook_each`.  `cfg(...)` on items/variants/fields is evaluated for the feature set the harness builds
 //! with (std, serde, visitor).  Generic definitions are monomorphised per instantiation that occurs.
 //!
 //! Outputs: `<out>/lean/Schema.lean`, `<out>/schema.json`, `<out>/obl_schema.json`.
@@ -224,8 +226,26 @@ struct FieldD {
     name: Option<String>,
     ty: TyE,
     hook: Option<String>,
+    /// the declared type is written `Vec<..>` (last path segment `Vec`): exactly the test `is_vec` of
+    /// derive/src/lib.rs, on the source text, before any substitution of type parameters.  A `with`
+    /// hook on such a field is emitted once per element (pre, element visit, post) instead of once
+    /// around the field.
+    decl_vec: bool,
     visit_bad: Vec<String>,
     serde: Vec<String>,
+}
+/// `is_vec` of derive/src/lib.rs
+fn decl_is_vec(t: &syn::Type) -> bool {
+    match t {
+        syn::Type::Path(tp) => tp.path.segments.last().map(|s| s.ident == "Vec").unwrap_or(false),
+        _ => false,
+    }
+}
+impl FieldD {
+    /// the field-level hook fires per element (the derive's `for item in field { pre; visit; post }`)
+    fn hook_each(&self) -> bool {
+        self.hook.is_some() && self.decl_vec
+    }
 }
 #[derive(Clone, Debug, PartialEq)]
 enum ShapeK {
@@ -277,6 +297,7 @@ fn shape_of(fields: &syn::Fields, params: &[String]) -> ShapeD {
             name: f.ident.as_ref().map(|i| syn::ext::IdentExt::unraw(i).to_string()),
             ty: ty_of(&f.ty, params),
             hook: a.visit_with.last().cloned(),
+            decl_vec: decl_is_vec(&f.ty),
             visit_bad: a.visit_bad.clone(),
             serde: a.serde.clone(),
         })
@@ -722,6 +743,11 @@ pub fn run(repo: &Path, out: &Path) -> Result<(), String> {
     let mut rel_names = vec![];
     let mut rel_ids = vec![];
     let mut hooked_all = vec![];
+    // positions whose field-level hook fires per element (hooked field written `Vec<..>`)
+    let mut each_names = vec![];
+    let mut each_ids = vec![];
+    // hooked fields on which the derive's syntactic Vec test and the resolved type disagree
+    let mut each_mismatch = vec![];
     for (i, inst) in insts.iter().enumerate() {
         let d = &sc.defs[inst.def];
         for (vi, v) in inst.variants.iter().enumerate() {
@@ -729,7 +755,19 @@ pub fn run(repo: &Path, out: &Path) -> Result<(), String> {
                 if let Some(h) = &f.hook {
                     let fname = f.name.clone().unwrap_or_else(|| k.to_string());
                     let pos = if d.is_enum { format!("{}::{}.{}", inst.display, v.name, fname) } else { format!("{}.{}", inst.display, fname) };
-                    hooked_all.push(json!({"pos": pos, "hook": h, "type": i, "variant": vi, "field": k, "ty": ty_text(&f.ty, &insts)}));
+                    // the value the callback receives: the field, or each element of a `Vec` field
+                    let arg_ty = match (&f.ty, f.hook_each()) {
+                        (TyE::Vec(x), true) => ty_text(x, &insts),
+                        _ => ty_text(&f.ty, &insts),
+                    };
+                    hooked_all.push(json!({"pos": pos, "hook": h, "type": i, "variant": vi, "field": k, "ty": ty_text(&f.ty, &insts), "each": f.hook_each(), "arg_ty": arg_ty}));
+                    if f.decl_vec != matches!(f.ty, TyE::Vec(_)) {
+                        each_mismatch.push(format!("{pos}: written {} a Vec, resolved type {}", if f.decl_vec { "as" } else { "not as" }, ty_text(&f.ty, &insts)));
+                    }
+                    if f.hook_each() {
+                        each_names.push(pos.clone());
+                        each_ids.push(format!("({i}, {vi}, {k})"));
+                    }
                     if h == "visit_relation" {
                         rel_names.push(pos);
                         rel_ids.push(format!("({i}, {vi}, {k})"));
@@ -740,6 +778,8 @@ pub fn run(repo: &Path, out: &Path) -> Result<(), String> {
     }
     o.push_str(&format!("/-- fields carrying `visit(with = \"visit_relation\")`: (type id, variant index (0 for a struct), field index) -/\ndef relationHooked : List (Nat × Nat × Nat) := [{}]\n", rel_ids.join(", ")));
     o.push_str(&format!("def relationHookedNames : List String := [{}]\n", rel_names.iter().map(|s| lean_str(s)).collect::<Vec<_>>().join(", ")));
+    o.push_str(&format!("/-- hooked fields written `Vec<..>` in the source: the derive emits the hook once per element (pre, element, post), in order -/\ndef eachHooked : List (Nat × Nat × Nat) := [{}]\n", each_ids.join(", ")));
+    o.push_str(&format!("def eachHookedNames : List String := [{}]\n", each_names.iter().map(|s| lean_str(s)).collect::<Vec<_>>().join(", ")));
     let type_hooks: Vec<(String, String)> = insts.iter().filter_map(|x| sc.defs[x.def].attrs.visit_with.last().map(|h| (x.display.clone(), h.clone()))).collect();
     o.push_str(&format!("def typeHookNames : List (String × Nat) := [{}]\n", type_hooks.iter().map(|(t, h)| format!("({}, {})", lean_str(t), hook_id(h))).collect::<Vec<_>>().join(", ")));
     let n_serde_attrs: usize = sc.defs.iter().map(|d| d.attrs.serde.len() + d.variants.iter().map(|v| v.serde.len() + v.shape.fields.iter().map(|f| f.serde.len()).sum::<usize>()).sum::<usize>()).sum();
@@ -782,7 +822,7 @@ pub fn run(repo: &Path, out: &Path) -> Result<(), String> {
                         "fields": v.shape.fields.iter().enumerate().map(|(k, f)| json!({
                             "name": f.name, "index": k, "name_id": f.name.as_ref().map(|n| nid(n)),
                             "ty": json_ty(&f.ty, &insts), "ty_text": ty_text(&f.ty, &insts),
-                            "hook": f.hook.as_ref().map(|h| hook_id(h)), "hook_name": f.hook, "serde": f.serde,
+                            "hook": f.hook.as_ref().map(|h| hook_id(h)), "hook_name": f.hook, "hook_each": f.hook_each(), "decl_vec": f.decl_vec, "serde": f.serde,
                         })).collect::<Vec<_>>(),
                     })
                 })
@@ -868,9 +908,13 @@ pub fn run(repo: &Path, out: &Path) -> Result<(), String> {
     }
     c16.insert("schema.hooks-known".into(), ob(bad.is_empty(), if bad.is_empty() { format!("{} field-level hooks, {} type-level hooks, all among {:?}", hooked_all.len(), type_hooks.len(), HOOKS) } else { bad.join("; ") }));
 
-    // a relation hook passes the field to a callback taking &ObjectName: the field type must be ObjectName
-    let bad: Vec<String> = hooked_all.iter().filter(|h| h["hook"] == "visit_relation" && h["ty"] != "ObjectName").map(|h| format!("{}: {}", h["pos"], h["ty"])).collect();
-    c16.insert("schema.relation-hook-on-object-name".into(), ob(bad.is_empty(), if bad.is_empty() { format!("{} relation-hooked fields, all of type ObjectName", rel_names.len()) } else { bad.join("; ") }));
+    // a relation hook passes the field (each element of a `Vec` field) to a callback taking &ObjectName:
+    // the field type must be ObjectName or Vec<ObjectName>
+    let bad: Vec<String> = hooked_all.iter().filter(|h| h["hook"] == "visit_relation" && h["arg_ty"] != "ObjectName").map(|h| format!("{}: {}", h["pos"], h["ty"])).collect();
+    c16.insert("schema.relation-hook-on-object-name".into(), ob(bad.is_empty(), if bad.is_empty() { format!("{} relation-hooked fields, all of type ObjectName ({} of type Vec<ObjectName>, hooked per element: {})", rel_names.len(), each_names.len(), each_names.join(", ")) } else { bad.join("; ") }));
+    // the derive decides "per element" on the spelling of the field type (`is_vec`: last path segment `Vec`);
+    // the model decides on the resolved type (`.vec _` in Gen/Schema): the two must agree on every hooked field
+    c16.insert("schema.hooked-vec-syntactic".into(), ob(each_mismatch.is_empty(), if each_mismatch.is_empty() { format!("{} hooked fields; written `Vec<..>` exactly when the resolved type is a Vec ({} such)", hooked_all.len(), each_names.len()) } else { each_mismatch.join("; ") }));
 
     // reachable from Statement: derives present
     let mut missing_v = vec![];
